@@ -185,6 +185,9 @@ func debMachine(p *Prog, sc debScenario) *Machine {
 		return []Val{IfaceV{T: ifT, V: opaque(st, "multi("+strings.Join(ps, "+")+")")}}, true
 	}
 	m.InvokeHook = func(m *Machine, st *State, call *ssa.CallCommon, recv Val, args []Val) ([]Val, bool) {
+		if _, isNil := recv.(nilV); isNil {
+			return nil, false // a method call on a nil interface panics (handled by the interpreter)
+		}
 		switch call.Method.Name() {
 		case "Close":
 			note(st, "close:"+debProv(st, recv))
